@@ -1,13 +1,13 @@
 SPECIFICATION Spec
 CONSTANTS Tx = {"t1", "t2", "t3"}
-          MaxH = 2
+          MaxH = 1
           MAXTX = 2
           CAP = 2
           LIMIT = 2
           PreExec = TRUE
           Eager = FALSE
           Acts = {"admit", "rsp", "getpool", "verifyblock", "blocksaved"}
-          ListLen = 1
+          ListLen = 2
           Depth = 0
           EmitOn = FALSE
 VIEW View
